@@ -1,0 +1,74 @@
+//go:build verif
+
+package blobstore
+
+import (
+	"google.golang.org/protobuf/proto"
+)
+
+// VerifMutableProtoHandleState is a copy of the bookkeeping fields of
+// one handle of a BlobAccess backed MutableProtoStore. It is only used
+// by external verification tooling.
+type VerifMutableProtoHandleState struct {
+	// Handle is the handle object itself; it is only meant to be
+	// compared for identity.
+	Handle              any
+	DigestKey           string
+	UseCount            int
+	WrittenVersion      int
+	CurrentVersion      int
+	HandlesToWriteIndex int
+	// InMap is true if store.handles[digest] is this very handle.
+	InMap bool
+	// Message is a copy of the message embedded in the handle.
+	Message proto.Message
+}
+
+// VerifMutableProtoStoreSnapshot returns, under the store's lock, the
+// state of every handle that is reachable from the store (through the
+// handles map or the write queue) or that is listed in extraHandles
+// (handles the caller obtained from Get() earlier), followed by the
+// handles in the write queue in queue order. It returns ok == false if
+// the store is not the BlobAccess backed implementation.
+func VerifMutableProtoStoreSnapshot[T any, TProto interface {
+	*T
+	proto.Message
+}](store MutableProtoStore[TProto], extraHandles []MutableProtoHandle[TProto]) (handles []VerifMutableProtoHandleState, queue []any, ok bool) {
+	ss, ok := store.(*blobAccessMutableProtoStore[T, TProto])
+	if !ok {
+		return nil, nil, false
+	}
+	ss.lock.Lock()
+	defer ss.lock.Unlock()
+
+	seen := map[*blobAccessMutableProtoHandle[T, TProto]]struct{}{}
+	add := func(sh *blobAccessMutableProtoHandle[T, TProto]) {
+		if _, ok := seen[sh]; ok {
+			return
+		}
+		seen[sh] = struct{}{}
+		handles = append(handles, VerifMutableProtoHandleState{
+			Handle:              MutableProtoHandle[TProto](sh),
+			DigestKey:           sh.digest.String(),
+			UseCount:            sh.useCount,
+			WrittenVersion:      sh.writtenVersion,
+			CurrentVersion:      sh.currentVersion,
+			HandlesToWriteIndex: sh.handlesToWriteIndex,
+			InMap:               ss.handles[sh.digest] == sh,
+			Message:             proto.Clone(TProto(&sh.message)),
+		})
+	}
+	for _, sh := range ss.handlesToWrite {
+		queue = append(queue, MutableProtoHandle[TProto](sh))
+		add(sh)
+	}
+	for _, sh := range ss.handles {
+		add(sh)
+	}
+	for _, h := range extraHandles {
+		if sh, ok := h.(*blobAccessMutableProtoHandle[T, TProto]); ok {
+			add(sh)
+		}
+	}
+	return handles, queue, true
+}
